@@ -111,6 +111,14 @@ CHECKS = {
             'NetworkingThread is instantiated without sockets; query/fragment parts are not generated; ldap/uuid rules '
             'are only checked for totality.',
             'DESIGN.md section 2 C14'),
+    'C20': ('hypothesis generated MDIB states + handle lists / text stores + filter parameters, queried through the real '
+            'consumer service clients over the loop-back transport and compared with a reference selection',
+            'GetMdState / GetContextStates answers (parsed by the consumer clients) are compared as keyed multisets and by '
+            'canonical content with a reference selection written from the BICEPS rules and evaluated on the provider '
+            'tables; GetLocalizedText answers must come from the store and satisfy every given constraint, the '
+            'unconstrained answer must be exactly the latest version; GetSupportedLanguages must equal the stored languages.',
+            'Single provider with context states enabled in GetMdState (library default); handle strings are schema-valid.',
+            'DESIGN.md section 2 C20'),
 }
 
 NOT_YET = {}
